@@ -187,10 +187,10 @@ bool c16BoxOp(std::vector<std::string> const& t, std::string& out){
 		return true;
 	}
 	if(op != "smo" && op != "killex" && op != "deactvar" && op != "deactex" && op != "shrink" && op != "unshrink" && op != "adddelta"
-		&& op != "label" && op != "select1") return false;
+		&& op != "label" && op != "select1" && op != "solve") return false;
 	if(!S.prob || !parseInts(t, 1, a)){ out = "bad-op"; return true; }
 	Probe& p = *S.prob;
-	std::string pre;
+	std::string pre, stopOrc;
 	std::feclearexcept(FE_ALL_EXCEPT);
 	if(op == "smo" && a.size() == 2){
 		if(!(a[0] >= 0 && a[1] >= 0 && (std::size_t)a[0] < p.aV() && (std::size_t)a[1] < p.aV())){ out = "bad-op"; return true; }
@@ -223,9 +223,24 @@ bool c16BoxOp(std::vector<std::string> const& t, std::string& out){
 		// selectWorkingSet (first and second order choice), observed through the public interface
 		std::size_t i = 0, j = 0; double v = p.selectWorkingSet(i, j);
 		std::ostringstream os; os << "i=" << (v == 0.0 ? 0 : i) << " j=" << (v == 0.0 ? 0 : j) << " viol=" << bits(v) << " "; pre = os.str();
+	}else if(op == "solve" && a.size() == 3){
+		// the real decomposition loop QpSolver::solve on the real problem object, from its current state
+		if(a[2] < 0){ out = "bad-op"; return true; }
+		QpStoppingCondition stop; stop.minAccuracy = shiftVal(a[0], a[1]); stop.maxIterations = (unsigned long long)a[2];
+		QpSolutionProperties prop; prop.type = QpNone;
+		QpSolver<Probe> solver(p);
+		solver.solve(stop, &prop);
+		std::ostringstream os; os << "it=" << prop.iterations << " stop=" << (int)prop.type << " acc=" << bits(prop.accuracy) << " "; pre = os.str();
+		// oracle for the stopping rule: AccuracyReached  =>  all variables active and the INDEPENDENTLY recomputed
+		// gradient is eps-KKT (the oracle below recomputes the gradient of all active variables from the original data)
+		if(prop.type == QpAccuracyReached){
+			if(p.aV() != S.n * S.P) stopOrc += " !oracle stopped-while-shrunk";
+			if(!(p.checkKKT() < stop.minAccuracy)) stopOrc += " !oracle stopped-not-kkt";
+		}else if(prop.type != QpMaxIterationsReached) stopOrc += " !oracle stop-type";
+		if(prop.iterations > stop.maxIterations) stopOrc += " !oracle iterations-exceed-limit";
 	}else{ out = "bad-op"; return true; }
 	if(std::fetestexcept(FE_INEXACT)) S.exact = false;
-	std::string orc = p.oracle(S.K0, S.labels0, S.M, S.C, true);
+	std::string orc = p.oracle(S.K0, S.labels0, S.M, S.C, true) + stopOrc;
 	if(op == "label" && p.label(a[0]) != S.labels0[a[0]]) orc += " !oracle label-after-shrink";
 	out = pre + p.dump() + " #x=" + (S.exact ? "1" : "0") + orc;
 	return true;
